@@ -213,39 +213,54 @@ def run_item(item):
         return res
 
     # ---- DataCondition(use_full_dataset=True) aggregates every batch exactly once ----------
-    for N in range(1, 8):
+    #      the same for the other conditions with a full-data-set mode: HPM_EquationLoss_at_DataPoints (per-batch value =
+    #      mean squared residual) and HPCMCondition (per-batch value = |state - target - correction|)
+    for ckind in ("data", "hpm", "hpcm"):
+      for N in range(1, 8):
         for bs in range(1, 9):
             for norm in (1, 2, "inf"):
                 for root in (1.0, 2.0):
                     for drop in (False, True):
                         if drop and N // bs == 0:
                             continue
-                        cfg = "N=%d bs=%d norm=%s root=%s drop_last=%s" % (N, bs, norm, root, drop)
+                        if ckind != "data" and (drop or N > 5 or bs > 6):
+                            continue
+                        cfg = "%sN=%d bs=%d norm=%s root=%s drop_last=%s" % ("" if ckind == "data" else ckind + " ", N, bs, norm, root, drop)
                         res["states"].append(cfg)
                         ids = torch.arange(N, dtype=torch.float32).reshape(N, 1)
                         d = (ids % 3 + 1.0) * 0.5 + ids * 0.01
                         x = Points(ids.clone(), Space({"x": 1}))
                         y = Points(ids - d, Space({"u": 1}))
                         ld = PointsDataLoader((x, y), batch_size=bs, drop_last=drop)
-                        cond = tp.conditions.DataCondition(IdModel(), ld, norm=norm, root=root, use_full_dataset=True)
+                        if ckind == "data":
+                            cond = tp.conditions.DataCondition(IdModel(), ld, norm=norm, root=root, use_full_dataset=True)
+                        elif ckind == "hpm":
+                            cond = tp.conditions.HPM_EquationLoss_at_DataPoints(
+                                IdModel(), ld, norm, lambda x: (x % 3 + 1.0) * 0.5 + x * 0.01, root=root, use_full_dataset=True)
+                        else:
+                            from torchphysics.problem.conditions.condition import HPCMCondition
+                            cond = HPCMCondition(IdModel(), IdModel(), ld, lambda u: Points(0.0 * u, Space({"u": 1})),
+                                                 norm=norm, root=root, use_full_dataset=True)
                         res["evals"] += 1
                         res["transitions"] += 1
                         try:
                             val = float(cond())
                             val2 = float(cond())
                         except Exception as e:
-                            viol("C16|datacondition|error|%s" % type(e).__name__, "%s raised %s: %s" % (cfg, type(e).__name__, str(e)[:100]))
+                            viol("C16|%scondition|error|%s" % (ckind, type(e).__name__), "%s raised %s: %s" % (cfg, type(e).__name__, str(e)[:100]))
                             continue
                         dd = d[:, 0].double().numpy()
                         keep = N if not drop else (N // bs) * bs
                         chunks = [dd[i:i + bs] for i in range(0, keep, bs)]
+                        if ckind == "hpm":
+                            chunks = [np.array([np.mean(c ** 2)]) for c in chunks]      # one value per batch
                         if norm == "inf":
                             exp = max(c.max() for c in chunks)
                         else:
                             exp = float(np.mean([np.mean(c ** norm) for c in chunks]))
                         exp = exp ** (1 / root)
                         if abs(val - exp) > 1e-5 * max(1, abs(exp)):
-                            viol("C16|datacondition|value|%s" % norm, "%s: full-data-set loss %.6f, aggregation over every batch once gives %.6f" % (cfg, val, exp))
+                            viol("C16|%scondition|value|%s" % (ckind, norm), "%s: full-data-set loss %.6f, aggregation over every batch once gives %.6f" % (cfg, val, exp))
                         elif abs(val2 - val) > 1e-7:
                             viol("C16|datacondition|not-repeatable", "%s: second evaluation %.6f differs from the first %.6f" % (cfg, val2, val))
                         elif len(chunks) > 1:
